@@ -1,6 +1,6 @@
 (* PV.C01.Examples — non-vacuity: concrete non-trivial inputs meeting the hypotheses of the theorems. *)
 From Coq Require Import QArith List Bool PArith Arith Lia.
-From PV Require Import Base.PyData Base.Expr Base.Interp Base.Stmts C01.Model C01.Refuted C01.ProofsParams.
+From PV Require Import Base.PyData Base.Expr Base.Interp Base.Stmts C01.Model C01.Check C01.Refuted C01.ProofsParams C01.Parser.
 Import ListNotations.
 
 (* A = THETA(1)
@@ -80,9 +80,38 @@ Example trans5_spec_value :
   = Some [(1%nat, 0%nat, Some (45 # 13)%Q); (1%nat, 2%nat, Some (8 # 39)%Q); (2%nat, 1%nat, Some (13 # 3)%Q)].
 Proof. vm_compute. reflexivity. Qed.
 
-(* read_code_sound: read_code is translate on every program, e.g. on one that calls MOD *)
-Example read_code_nonvacuous : read_code ex_prog = translate ex_prog /\ read_code p_mod = translate p_mod.
-Proof. split; vm_compute; reflexivity. Qed.
+(* read_code_sound: the interpretation used by the correspondence respects the protection rules,
+   and a program with PEXP / LOG10 is expanded *)
+Example protected_spec_nonvacuous : protected_spec c01_fi.
+Proof.
+  intros f p x H. unfold c01_fi at 1. cbn [fi1]. unfold c01_fi1. rewrite H. destruct p; reflexivity.
+Qed.
+Example read_expr_example :
+  read_expr (Fn1 F_PEXP (Sym th1)) =
+    PwCons (CRel OGt (Sym th1) (Num 100)) (Fn1 F_EXP (Num 100)) (PwCons CTrue (Fn1 F_EXP (Sym th1)) PwNil) /\
+  eval (env_of [(th1, 3%Q)]) c01_fi (Fn1 F_PEXP (Sym th1)) = Some 8%Q /\
+  eval (env_of [(th1, 8%Q)]) c01_fi (Fn1 F_LOG10 (Sym th1)) = Some 1%Q /\
+  read_code ex_prog = translate ex_prog.
+Proof. repeat split; vm_compute; reflexivity. Qed.
+
+(* the reference parser: precedence decisions on unparenthesised token lists
+   -A**2 = -(A**2);  A**B**2 = A**(B**2);  A/B*C = (A/B)*C;  2**-1;  A-B-C = (A-B)-C;  A+B*C *)
+Definition tA := TId sA. Definition tB := TId sB. Definition tX := TId sX.
+Example prec_examples :
+  p_add 20 [TMinus; tA; TPow; TNum 2] = Some (Neg (Fn2 F_POW (Sym sA) (Num 2)), []) /\
+  p_add 20 [tA; TPow; tB; TPow; TNum 2] = Some (Fn2 F_POW (Sym sA) (Fn2 F_POW (Sym sB) (Num 2)), []) /\
+  p_add 20 [tA; TSlash; tB; TStar; tX] = Some (Mul (Div (Sym sA) (Sym sB)) (Sym sX), []) /\
+  p_add 20 [TNum 2; TPow; TMinus; TNum 1] = Some (Fn2 F_POW (Num 2) (Neg (Num 1)), []) /\
+  p_add 20 [tA; TMinus; tB; TMinus; tX] = Some (Add (Add (Sym sA) (Neg (Sym sB))) (Neg (Sym sX)), []) /\
+  p_add 20 [tA; TPlus; tB; TStar; tX] = Some (Add (Sym sA) (Mul (Sym sB) (Sym sX)), []) /\
+  p_cond 20 [TNot; tA; TRel OGt; TNum 1; TAnd; tB; TRel OLt; TNum 2; TOr; tX; TRel OEq; TNum 3] =
+    Some (COr (CAnd (CNot (CRel OGt (Sym sA) (Num 1))) (CRel OLt (Sym sB) (Num 2))) (CRel OEq (Sym sX) (Num 3)), []).
+Proof. repeat split; vm_compute; reflexivity. Qed.
+
+(* parse_print: ex_prog is well formed, and its printed form parses back *)
+Example parse_print_nonvacuous :
+  wf_body ex_prog = true /\ parse_prog (pr_body ex_prog) = Some ex_prog /\ length (pr_body ex_prog) = 82%nat.
+Proof. repeat split; vm_compute; reflexivity. Qed.
 
 (* omega_positions: a 3x3 lower triangle starting at row 4 *)
 Example positions_nonvacuous :
